@@ -68,7 +68,7 @@ func init() {
 		return nil, true
 	}
 	specials["(*sync.Cond).Signal"] = func(x *Exec, st *State, ins ssa.Instruction, c *ssa.Function, a []Value) (Value, bool) {
-		st.Events = append(st.Events, "broadcast")
+		st.Events = append(st.Events, "signal-one")
 		return nil, true
 	}
 	specials["(*sync/atomic.Pointer).Load"] = func(x *Exec, st *State, ins ssa.Instruction, c *ssa.Function, a []Value) (Value, bool) {
@@ -360,8 +360,53 @@ func (x *Exec) lockOp(st *State, ins ssa.Instruction, lockPtr Value, op string) 
 	}
 }
 
+// monitorHasCond: the monitor's struct has a sync.Cond field (waiters block on conditions over the
+// protected fields).
+func (x *Exec) monitorHasCond(m monObj) bool {
+	if m.mon == nil || m.ty == nil {
+		return false
+	}
+	stt, ok := m.ty.Underlying().(*types.Struct)
+	if !ok {
+		return false
+	}
+	for i := 0; i < stt.NumFields(); i++ {
+		if n, ok := stt.Field(i).Type().(*types.Named); ok && n.Obj().Pkg() != nil && n.Obj().Pkg().Path() == "sync" && n.Obj().Name() == "Cond" {
+			return true
+		}
+	}
+	return false
+}
+
+// checkWakeAll: in a monitor with a condition variable, every write to a protected field is followed
+// by a Broadcast before the lock is released (Unlock or Wait): waiters of every kind re-check their
+// condition after each change; Signal would wake only one of them.
+func (x *Exec) checkWakeAll(st *State, ins ssa.Instruction, m monObj, what string) {
+	if !x.monitorHasCond(m) {
+		return
+	}
+	last, woke := -1, false
+	for i, ev := range st.Events {
+		if ev == "pwrite:"+m.root {
+			last, woke = i, false
+		} else if ev == "broadcast" && last >= 0 {
+			woke = true
+		}
+	}
+	if last < 0 {
+		return
+	}
+	g := TTrue
+	if !woke {
+		g = TFalse
+	}
+	x.oblige(st, "wake-all", x.anchor(ins, what), g,
+		fmt.Sprintf("every change of %s's protected fields is followed by Broadcast before the lock is released", m.mon.Type), ins, nil)
+}
+
 // checkMonitorFree asserts the monitor invariant (and P) at a point where the lock is released.
 func (x *Exec) checkMonitorFree(st *State, ins ssa.Instruction, m monObj, what string) {
+	x.checkWakeAll(st, ins, m, what)
 	if m.mon == nil {
 		return
 	}
@@ -469,6 +514,9 @@ func (x *Exec) heldCheck(st *State, p PtrV, ins ssa.Instruction, write bool) {
 	}
 	k := m.key()
 	if st.Held[k] != nil {
+		if write && x.monitorHasCond(m) {
+			st.Events = append(st.Events, "pwrite:"+m.root)
+		}
 		return
 	}
 	if write {
